@@ -43,7 +43,7 @@ CHECKS = {
     "C15": ("other", "contracts (slice window = CPython's clamped window, position lookup, sub-range extraction) + bounded numpy stand-in",
             "Proved: _get_slice hands exactly CPython's clamped window to _start_to_end for all 8 None/int kinds; _start_to_end (scalar form) returns a canonical sub-array with the dense content; _step_subset for every non-zero step of symbolic size (factored floor division, proved callee contracts of remove_empty_intervals / join_runs); _get_position; __getitem__ / _getitem_bool dispatch for every index kind. the vector form of _start_to_end (the windows behind run-length masks and rla[starts:stops]) and RunLengthRaggedArray.ravel, with the ragged operands as contract-level stand-ins (SpecRagged, audited against the real RaggedArray). The end-to-end composition is bounded.", "0, 11/C15"),
     "C16": ("other", "contracts (operand order, boundaries kept, any/all/max) + bounded numpy stand-in",
-            "Proved: unary / scalar ufuncs keep boundaries and apply U in operand order, operands untouched; the binary merge _apply_binary_func for two arrays with unrelated boundaries (every position gets U(first, other) in operand order; argsort / searchsorted contracts, partition-point induction, proved callee contracts); any/all/max equal the dense ones; concatenate. sum / mean / histogram values are bounded.", "0, 11/C16"),
+            "Proved: unary / scalar ufuncs keep boundaries and apply U in operand order, operands untouched; the binary merge _apply_binary_func for two arrays with unrelated boundaries (every position gets U(first, other) in operand order; argsort / searchsorted contracts, partition-point induction, proved callee contracts); any/all/max equal the dense ones; sum of integer arrays equals the sum of the decoded array (two inductions, products length * value handled by the solver's nonlinear arithmetic); concatenate. mean / histogram and float sums are bounded.", "0, 11/C16"),
     "C17": ("other", "dispatch contracts (operand order, lock-step row selection) + bounded numpy stand-in",
             "Proved: ufunc operand order for scalar / column on either side in both classes; row selection indexes boundaries and values with the same selector; reduction / structure plumbing (which ragged reduction is applied to which operand); RunLength2dArray.join_runs (lock-step filtering, real ragged machinery); with the ragged operands as contract-level stand-ins (SpecRagged, audited): RunLengthRaggedArray.ravel, the integer-column selection rr[:, j] (two inductions), RunLengthRaggedArray.remove_empty_intervals (row by row the 1-D helper's contract; lock-step of boundaries and values; six inductions), the window extraction behind rla[starts:stops]. Constructors, column ranges, column sums, concatenate are bounded.", "0, 11/C17"),
     "C18": ("other", "contracts on field-wise operations with abstract fields (k = 1..3 fields unrolled, all lengths and selectors symbolic) + bounded stand-in",
